@@ -250,6 +250,9 @@ func run(c *eng.Ctx) {
 		{
 			n := len(list) + 8
 			web.RunNestedInstall(c, "C14", func() (int, bool) { i := n; n++; return i, c.Mine(i) })
+			// requests rejected by a configured middleware, every web integration
+			m := len(list) + 300
+			web.RunRejectedRequests(c, "C14", func() (int, bool) { i := m; m++; return i, c.Mine(i) })
 		}
 		if idx := len(list) + 7; c.Mine(idx) {
 			settle(procBase)
